@@ -36,6 +36,17 @@ def apply_edit(d, rel, find, replace, count=1):
     return True, ""
 
 
+def apply_regex(d, rel, pattern, replace):
+    import re
+    p = os.path.join(d, rel)
+    s = open(p).read()
+    s2, n = re.subn(pattern, replace, s)
+    if n == 0:
+        return False, "regex %r matched nothing in %s" % (pattern, rel)
+    open(p, "w").write(s2)
+    return True, ""
+
+
 def run_check(d, pid, timeout=600):
     env = dict(os.environ)
     env["CQVERIF_REPO"] = d
@@ -59,6 +70,12 @@ def with_change(kind, spec, pids):
     try:
         if kind == "patch":
             ok, msg = apply_patch(d, spec)
+        elif kind == "regex":
+            ok, msg = True, ""
+            for e in spec:
+                ok, msg = apply_regex(d, e["file"], e["regex"], e["replace"])
+                if not ok:
+                    break
         else:
             ok, msg = apply_edit(d, spec["file"], spec["find"], spec["replace"])
         if not ok:
